@@ -65,12 +65,12 @@ pub fn budget(prop: &str, tier: Tier) -> u64 {
         ("C10", t) => pc_connect::budget(prop, t),
         ("C17", t) => pc_close::budget(prop, t),
         ("C14", t) => srtpgate::budget(prop, t),
-        ("C01", Tier::Quick) => 3000,
-        ("C01", Tier::Thorough) => 150_000,
-        ("C12", Tier::Quick) => 2500,
-        ("C12", Tier::Thorough) => 100_000,
-        ("C13", Tier::Quick) => 2000,
-        ("C13", Tier::Thorough) => 80_000,
+        ("C01", Tier::Quick) => 20_000,
+        ("C01", Tier::Thorough) => 600_000,
+        ("C12", Tier::Quick) => 6000,
+        ("C12", Tier::Thorough) => 200_000,
+        ("C13", Tier::Quick) => 5000,
+        ("C13", Tier::Thorough) => 150_000,
         (_, Tier::Quick) => 1000,
         (_, Tier::Thorough) => 50_000,
     }
